@@ -10,6 +10,9 @@ pub const TOK_FRAGMENTS: &[&str] = &[
     " x='y'", " x=\"y\"", " X=1", " x", "/>", "&amp;", "&amp", "&lt", "&not", "&notin;", "&noti", "&#", "&#x", "&#65;",
     "&#x41", "&#0;", "&#128;", "&#xD800;", "&#1114112;", "&AElig", "&Aacute=", "&copy1", "\t", "\n", "\r", "\r\n",
     "\x0C", " ", "\0", "a", "A", "z", "é", "\u{FEFF}", "😁", "x", "scr", "ipt", "TITLE", "`", "<?", "<?xml ?>", "</ >", "</",
+    "<averyveryverylongtagname0123456789 ", "averyveryverylongattributename0123456789=", "\"a very very very long attribute value 0123456789 &amp; more\"",
+    "<!--a very very very long comment 0123456789 - with - dashes-->", "<!DOCTYPE averyveryverylongdoctypename PUBLIC \"a very very long public identifier\" 'and a long system identifier'>",
+    "some long text of more than sixteen bytes, and then some more", "&CounterClockwiseContourIntegral;", "&CounterClockwiseContourIntegra",
     "&#x100000041;", "&#4294967361;", "&#x0000000041;", "&#99999999999;", "</title/>", "</script/>", "</style/>", "</textarea/>", "</xmp/ x>", "</title x=y>", "</script\t>", "</TITLE/>", "<!x>", "<!-", "<!->", "<!--->", "<!---->", "<!-- <!-- -->", "--!", "<![", "<![cdata[", "]]", "PUBLIC", "system",
 ];
 
@@ -122,7 +125,7 @@ const ATTRS: &[&str] = &[
     "definitionurl=u", "definitionURL=v", "viewbox=1", "viewBox=\"0 0 1 1\"", "attributename=x", "shadowrootmode=open",
     "shadowrootmode=closed", "shadowrootmode=x", "selected", "multiple", "charset=utf-8", "http-equiv=content-type",
     "content=\"text/html; charset=x\"", "form=f", "href=#", "name=n", "x", "x=1", "x=2", "a='b'", "a=\"c\"", "disabled",
-    "nonce=n", "=", "a=&amp;", "b=&ampx", "é=ü", "\0=\0", "xlink:bogus=1", "xml:bogus=1", "xmlns:bogus=1",
+    "nonce=n", "data-a-very-long-attribute-name-0123456789=\"a long value, more than sixteen bytes\"", "title='another quite long value 0123456789'", "=", "a=&amp;", "b=&ampx", "é=ü", "\0=\0", "xlink:bogus=1", "xml:bogus=1", "xmlns:bogus=1",
 ];
 
 fn gen_attrs(s: &mut Src, out: &mut String) {
